@@ -58,3 +58,165 @@ impl vstd::std_specs::convert::FromSpecImpl<Extent> for Range<u64> {
 pub open spec fn ends_le(s: Seq<Extent>, b: int) -> bool { forall|i: int| 0 <= i < s.len() ==> (#[trigger] s[i]).end <= b }
 /// ordered and pairwise disjoint
 pub open spec fn ext_sorted(s: Seq<Extent>) -> bool { forall|i: int, j: int| 0 <= i < j < s.len() ==> (#[trigger] s[i]).end <= (#[trigger] s[j]).start }
+pub open spec fn is_start(s: Seq<Extent>, v: int) -> bool { exists|i: int| 0 <= i < s.len() && (#[trigger] s[i]).start == v }
+pub open spec fn is_end(s: Seq<Extent>, v: int) -> bool { exists|i: int| 0 <= i < s.len() && (#[trigger] s[i]).end == v }
+/// `b` is the single byte between two consecutive input extents that the merge rule deems adjacent
+pub open spec fn in_gap(s: Seq<Extent>, b: int) -> bool { exists|i: int| 0 <= i < s.len() - 1 && (#[trigger] s[i]).end == b && s[i + 1].start == b + 1 }
+pub proof fn lemma_bounds_push(pre: Seq<Extent>, e: Extent, v: int)
+    ensures is_start(pre, v) ==> is_start(pre.push(e), v), is_end(pre, v) ==> is_end(pre.push(e), v),
+        is_start(pre.push(e), e.start as int), is_end(pre.push(e), e.end as int),
+{
+    let post = pre.push(e);
+    if is_start(pre, v) { let i = choose|i: int| 0 <= i < pre.len() && (#[trigger] pre[i]).start == v; assert(post[i].start == v); }
+    if is_end(pre, v) { let i = choose|i: int| 0 <= i < pre.len() && (#[trigger] pre[i]).end == v; assert(post[i].end == v); }
+    assert(post[pre.len() as int] == e);
+}
+pub proof fn lemma_gap_push(pre: Seq<Extent>, e: Extent, b: int)
+    ensures in_gap(pre, b) ==> in_gap(pre.push(e), b), covered(pre, b) ==> covered(pre.push(e), b),
+{
+    let post = pre.push(e);
+    if in_gap(pre, b) { let i = choose|i: int| 0 <= i < pre.len() - 1 && (#[trigger] pre[i]).end == b && pre[i + 1].start == b + 1; assert(post[i].end == b && post[i + 1].start == b + 1); }
+    if covered(pre, b) { let i = choose|i: int| 0 <= i < pre.len() && inx(#[trigger] pre[i], b); assert(inx(post[i], b)); }
+}
+
+/// one iteration of merge_extents, as a relation between the loop state before and after
+pub open spec fn merge_step(om: Seq<Extent>, op: Option<Extent>, e: Extent, m: Seq<Extent>, p: Option<Extent>) -> bool {
+    match op {
+        None => m == om && p == Some(e),
+        Some(q) => (e.start == q.end + 1 && m == om && p is Some && p->Some_0.start == q.start && p->Some_0.end == e.end)
+                || (e.start != q.end + 1 && m == om.push(q) && p == Some(e)),
+    }
+}
+pub proof fn lemma_merge_step_bounds(pre: Seq<Extent>, e: Extent, om: Seq<Extent>, op: Option<Extent>, m: Seq<Extent>, p: Option<Extent>)
+    requires merge_step(om, op, e, m, p),
+        forall|k: int| 0 <= k < (om + optseq(op)).len() ==> is_start(pre, (#[trigger] (om + optseq(op))[k]).start as int) && is_end(pre, (om + optseq(op))[k].end as int),
+    ensures
+        forall|k: int| 0 <= k < (m + optseq(p)).len() ==> is_start(pre.push(e), (#[trigger] (m + optseq(p))[k]).start as int) && is_end(pre.push(e), (m + optseq(p))[k].end as int),
+{
+    let old_m = om + optseq(op); let new_m = m + optseq(p); let post = pre.push(e);
+    assert forall|k: int| 0 <= k < new_m.len() implies is_start(post, (#[trigger] new_m[k]).start as int) && is_end(post, new_m[k].end as int) by {
+        lemma_bounds_push(pre, e, e.start as int);
+        if k < new_m.len() - 1 {
+            assert(new_m[k] == old_m[k]);
+            lemma_bounds_push(pre, e, old_m[k].start as int);
+            lemma_bounds_push(pre, e, old_m[k].end as int);
+        } else if op is Some && new_m.len() == old_m.len() {
+            let q = op->Some_0;
+            assert(old_m[old_m.len() - 1] == q);
+            lemma_bounds_push(pre, e, q.start as int);
+        } else {
+            assert(new_m[k] == e);
+        }
+    }
+}
+pub proof fn lemma_merge_step_gap(pre: Seq<Extent>, e: Extent, om: Seq<Extent>, op: Option<Extent>, m: Seq<Extent>, p: Option<Extent>)
+    requires merge_step(om, op, e, m, p),
+        op is Some ==> pre.len() > 0 && op->Some_0.end == pre[pre.len() - 1].end && op->Some_0.start <= op->Some_0.end,
+        forall|b: int| #[trigger] covered(om + optseq(op), b) ==> covered(pre, b) || in_gap(pre, b),
+    ensures
+        forall|b: int| #[trigger] covered(m + optseq(p), b) ==> covered(pre.push(e), b) || in_gap(pre.push(e), b),
+{
+    let old_m = om + optseq(op); let new_m = m + optseq(p); let post = pre.push(e); let n = pre.len() as int;
+    assert(post[n] == e);
+    assert forall|b: int| #[trigger] covered(new_m, b) implies covered(post, b) || in_gap(post, b) by {
+        let j = choose|j: int| 0 <= j < new_m.len() && inx(#[trigger] new_m[j], b);
+        lemma_gap_push(pre, e, b);
+        if j < new_m.len() - 1 {
+            assert(new_m[j] == old_m[j]);
+            assert(inx(old_m[j], b));
+            assert(covered(old_m, b));
+        } else if op is Some && new_m.len() == old_m.len() {
+            let q = op->Some_0;
+            assert(old_m[old_m.len() - 1] == q);
+            if b < q.end { assert(inx(old_m[old_m.len() - 1], b)); assert(covered(old_m, b)); }
+            else if b == q.end { assert(post[n - 1] == pre[n - 1]); assert(post[n - 1].end == b && post[n].start == b + 1); }
+            else { assert(inx(post[n], b)); }
+        } else {
+            assert(new_m[j] == e);
+            assert(inx(post[n], b));
+        }
+    }
+}
+
+pub proof fn lemma_merge_step_cover(pre: Seq<Extent>, e: Extent, om: Seq<Extent>, op: Option<Extent>, m: Seq<Extent>, p: Option<Extent>)
+    requires merge_step(om, op, e, m, p), ext_wf1(e), op is Some ==> ext_wf1(op->Some_0),
+        forall|b: int| covered(pre, b) ==> covered(om + optseq(op), b),
+    ensures forall|b: int| covered(pre.push(e), b) ==> covered(m + optseq(p), b),
+{
+    let old_m = om + optseq(op); let new_m = m + optseq(p); let post = pre.push(e);
+    assert forall|b: int| covered(post, b) implies covered(new_m, b) by {
+        let i = choose|i: int| 0 <= i < post.len() && inx(#[trigger] post[i], b);
+        if i < pre.len() {
+            assert(pre[i] == post[i]);
+            assert(covered(pre, b));
+            let j = choose|j: int| 0 <= j < old_m.len() && inx(#[trigger] old_m[j], b);
+            if j < om.len() { assert(new_m[j] == old_m[j]); }
+            else {
+                assert(op is Some && old_m[j] == op->Some_0);
+                assert(inx(new_m[new_m.len() - 1], b) || inx(new_m[new_m.len() - 2], b));
+            }
+        } else {
+            assert(post[i] == e);
+            assert(inx(new_m[new_m.len() - 1], b));
+        }
+    }
+}
+pub proof fn lemma_merge_step_wf(pre: Seq<Extent>, e: Extent, om: Seq<Extent>, op: Option<Extent>, m: Seq<Extent>, p: Option<Extent>)
+    requires merge_step(om, op, e, m, p), ext_wf1(e), ext_wf(om), ext_wf(optseq(op)),
+    ensures ext_wf(m), ext_wf(optseq(p)),
+{
+    if op is Some { assert(ext_wf1(optseq(op)[0])); }
+    assert forall|i: int| 0 <= i < m.len() implies ext_wf1(#[trigger] m[i]) by {
+        if i < om.len() { assert(m[i] == om[i]); }
+    }
+}
+pub proof fn lemma_merge_step_ends(e: Extent, om: Seq<Extent>, op: Option<Extent>, m: Seq<Extent>, p: Option<Extent>, b: int)
+    requires merge_step(om, op, e, m, p), e.end <= b, ends_le(om + optseq(op), b),
+    ensures ends_le(m + optseq(p), b),
+{
+    let old_m = om + optseq(op); let new_m = m + optseq(p);
+    assert forall|i: int| 0 <= i < new_m.len() implies (#[trigger] new_m[i]).end <= b by {
+        if i < om.len() { assert(new_m[i] == old_m[i]); }
+        else if i < new_m.len() - 1 { assert(new_m[i] == old_m[old_m.len() - 1]); }
+        else { assert(new_m[i].end == e.end); }
+    }
+}
+pub proof fn lemma_merge_step_sorted(e: Extent, om: Seq<Extent>, op: Option<Extent>, m: Seq<Extent>, p: Option<Extent>)
+    requires merge_step(om, op, e, m, p), ext_sorted(om + optseq(op)),
+        op is Some ==> op->Some_0.start <= op->Some_0.end && op->Some_0.end <= e.start,
+        op is None ==> om.len() == 0,
+    ensures ext_sorted(m + optseq(p)),
+{
+    let old_m = om + optseq(op); let new_m = m + optseq(p);
+    if op is Some {
+        let q = op->Some_0; let last = old_m.len() - 1;
+        assert(old_m[last] == q);
+        if new_m.len() == old_m.len() {
+            assert(new_m =~= old_m.update(last, new_m[last]));
+            assert(new_m[last].start == q.start);
+            assert forall|i: int, j: int| 0 <= i < j < new_m.len() implies (#[trigger] new_m[i]).end <= (#[trigger] new_m[j]).start by {
+                assert(old_m[i].end <= old_m[j].start);
+            }
+        } else {
+            assert(new_m =~= old_m.push(e));
+            assert forall|i: int, j: int| 0 <= i < j < new_m.len() implies (#[trigger] new_m[i]).end <= (#[trigger] new_m[j]).start by {
+                if j < old_m.len() { assert(old_m[i].end <= old_m[j].start); }
+                else if i < last { assert(old_m[i].end <= old_m[last].start); }
+                else { }
+            }
+        }
+    } else {
+        assert(new_m.len() == 1);
+    }
+}
+
+/// C19 (b): every merged range begins at an input start and ends at an input end.  Opaque: callers that do not need it do not pay for the quantifiers.
+#[verifier::opaque]
+pub open spec fn merge_bounds_ok(inp: Seq<Extent>, out: Seq<Extent>) -> bool {
+    forall|k: int| 0 <= k < out.len() ==> is_start(inp, (#[trigger] out[k]).start as int) && is_end(inp, out[k].end as int)
+}
+/// C19 (c): merged ranges add nothing but the single byte between input extents deemed adjacent
+#[verifier::opaque]
+pub open spec fn merge_gaps_ok(inp: Seq<Extent>, out: Seq<Extent>) -> bool {
+    forall|b: int| #[trigger] covered(out, b) ==> covered(inp, b) || in_gap(inp, b)
+}
